@@ -313,7 +313,7 @@ Section Machine.
   Definition do_proposed (now : Z) (me : participant) (d : dbstate) (t : terms) (md : metadata) : res dbstate :=
     if negb (valid_change (st_state d) Proposed) then Err (EInvalidTransition (st_state d) Proposed) else
     match t_leader t with
-    | None => Err EPanic             (* terms.Leader.Address on a nil Leader *)
+    | None => Err ECannotProposeAsNonLeader   (* the explicit nil check on terms.Leader *)
     | Some l =>
       if negb (bytes_eqb (p_addr l) (md_addr md)) then Err ECannotProposeAsNonLeader else
       match validate_proposal now d (Some t) with
